@@ -3,11 +3,72 @@ import kernel
 import sim
 
 
+def station_limits(rep, tier, sd):
+    """station rating on the service / signal scenario family (look-ahead strategies, stations rated below and above the
+    vehicle's power, tapering curves, tight connectors) and on individual-schedule scenarios: plain floats, every step"""
+    import copy
+    import random
+    from collections import Counter
+    import common as C
+    import svc
+    import c11
+    rng = random.Random("c05/stations/%d" % sd)
+    n = 8 if tier == "quick" else 80
+    dist = Counter()
+    for strategy in ("peak_load_window", "flex_window", "balanced_market", "balanced", "greedy"):
+        for _ in range(n):
+            case = svc.gen(rng, strategy)
+            js = svc.finish(case)
+            if js is None:
+                continue
+            res = svc.run(js, strategy, case["extra"])
+            if res.get("error"):
+                continue
+            dist[strategy] += 1
+            css = js["components"]["charging_stations"]
+            for i, row in enumerate(res["charge"]):
+                bad = [(k, p) for k, p in row.items() if abs(p) > css[k]["max_power"] + 1e-5]
+                if bad:
+                    rep.add_violation("C05/station-limit/%s/service" % strategy, "step %d: station %s carries %.5f kW, rating %s (%s, no local surplus)"
+                                      % (i, bad[0][0], bad[0][1], css[bad[0][0]]["max_power"], strategy), {"unit": "stations", "case": case})
+                    break
+    C.setup_repo_path()
+    from spice_ev.scenario import Scenario
+    import contextlib
+    import io
+    import warnings
+    for _ in range(3 * n):
+        case = c11.gen_schedule_case(rng)
+        js = case["js"]
+        with warnings.catch_warnings(), contextlib.redirect_stdout(io.StringIO()):
+            warnings.simplefilter("ignore")
+            s = Scenario(copy.deepcopy(js))
+            try:
+                s.run("schedule", {"LOAD_STRAT": "individual", "skip_flex_report": True})
+            except Exception:  # noqa
+                continue
+        dist["schedule-individual"] += 1
+        css = js["components"]["charging_stations"]
+        for i, row in enumerate(s.connChargeByTS["GC1"]):
+            bad = [(k, p) for k, p in row.items() if abs(p) > css[k]["max_power"] + 1e-5]
+            if bad:
+                rep.add_violation("C05/station-limit/schedule/individual", "step %d: station %s carries %.5f kW, rating %s (schedule, individual)"
+                                  % (i, bad[0][0], bad[0][1], css[bad[0][0]]["max_power"]), {"unit": "stations-schedule", "case": case})
+                break
+    rep.cov["evaluations"] += sum(dist.values())
+    rep.notes["station_limit_runs"] = dict(dist)
+
+
 def run(tier):
-    return sim.sim_run("C05", tier, sim.check_c05, inject=False, extra_units=[kernel.UNIT])
+    return sim.sim_run("C05", tier, sim.check_c05, inject=False, extra_units=[kernel.UNIT], extra=station_limits)
 
 
 def replay(payload):
+    if payload["input"].get("unit", "").startswith("stations"):
+        import common as C
+        rep = C.Report("C05", "quick")
+        station_limits(rep, "quick", C.seed())
+        return 1 if rep.violations else 0
     if payload["input"].get("unit") == "kernel":
         out = kernel.UNIT.run_impl(payload["input"]["case"])
         v = kernel.UNIT.check_property(payload["input"]["case"], out)
